@@ -309,6 +309,40 @@ def check(repo, rep, tier):
                     r3.violation(where, final.fq, "backend.%s" % attr,
                                  "AttributeError at interpreter exit for backends %s" % missing, "final/%s" % attr)
 
+    # ---------------- R-C18-5
+    r5 = rep.rule("R-C18-5", "with automatic proving on, the exit callback runs the proving step exactly once, whatever was traced", floor=1)
+    if final is None:
+        r5.undecided("%s:1" % rt.relpath, RT, "exit callback", "callback function not resolved")
+    else:
+        from ..hints import paths_to
+        from ..flatten import resolve_locals
+        proves = [c for c in ast.walk(final.node) if isinstance(c, ast.Call) and norm(c.func).endswith("backend.prove")]
+        if len(proves) != 1 or any(isinstance(p_, (ast.For, ast.While)) for p_ in parents(proves[0])):
+            r5.violation(final.loc(), final.fq, "%d calls of backend.prove()" % len(proves), "the proving step does not run exactly once",
+                         "final/prove-count")
+        else:
+            pc = proves[0]
+            extra = []
+            auto_seen = False
+            for path in paths_to(final.node, pc):
+                for t, pol in path.conds:
+                    tt = norm(resolve_locals(final.node, t))
+                    if tt in ("autoprove", "runtime.autoprove", "pysnark.runtime.autoprove") and pol:
+                        auto_seen = True
+                    elif tt in ("not autoprove",) and not pol:
+                        auto_seen = True
+                    else:
+                        extra.append(("" if pol else "not ") + tt)
+            if extra:
+                r5.violation(final.loc(pc), final.fq, "backend.prove() only if autoprove and %s" % " and ".join(sorted(set(extra))),
+                             "a successful run with automatic proving on can end without the proving step (no artefacts) when `%s` "
+                             "does not hold" % sorted(set(extra))[0], "final/prove-cond")
+            elif not auto_seen:
+                r5.violation(final.loc(pc), final.fq, norm(pc), "the proving step is not governed by `autoprove`: it also runs with "
+                             "automatic proving off", "final/prove-auto")
+            else:
+                r5.ok(final.loc(pc), final.fq, "if autoprove: backend.prove()", "runs exactly when automatic proving is on")
+
     # ---------------- R-C18-4
     r4 = rep.rule("R-C18-4", "every failing termination mode fires an interposed hook (model table)", floor=9)
     rep.extra["termination_modes"] = [{"mode": m_, "hook": h, "failing": f} for m_, h, f in MODES]
